@@ -45,7 +45,7 @@ NAMES = {
 @st.composite
 def case_st(draw, shapes):
     sc = draw(scen.scenario_st(shapes, measure="maybe",
-                               weight_kinds=("none", "int", "dyadic", "dyadic")))
+                               weight_kinds=("none", "int", "dyadic", "tenths")))
     tx, inforce = draw(xforms.slice_insertions_st(sc, where="either", allow_malformed=False))
     sc["transforms"] = tx
     sc["insertions"] = inforce
@@ -112,6 +112,23 @@ def _overlap(*specs):
 
 
 
+def _close_root(v, w, root):
+    """`close`, except that a quantity that is a square ROOT of the variance is compared in
+    the variance domain when it is tiny: with weights that are not exactly representable the
+    variance of a constant indicator is 0 +- 1e-16, and the root turns that into 1e-8."""
+    if close(v, w):
+        return True
+    if not root or v is None or w is None:
+        return False
+    try:
+        v, w = float(v), float(w)
+    except (TypeError, ValueError):
+        return False
+    if math.isnan(v) or math.isnan(w) or v < 0 or w < 0:
+        return False
+    return abs(v * v - w * w) <= 1e-12
+
+
 def judge_slice(case, rec):
     sv, q = case["survey"], case["query"]
     cube = lib.cube(zz9enc.encode(sv, q), case["transforms"])
@@ -151,7 +168,7 @@ def judge_slice(case, rec):
                     for g, w_, n in zip(got, want, names):
                         rec.compared()
                         v = g[i, j]
-                        if not close(v, w_):
+                        if not _close_root(v, w_, root=n != names[0]):
                             rec.violation(
                                 "%s[%d,%d] = %r; respondent-level value %r (row %r, col %r)"
                                 % (n, i, j, v, w_, rs, cs),
@@ -202,7 +219,7 @@ def judge_strand(case, rec):
                                                   "table_proportion_stderrs",
                                                   "table_proportion_moes")):
             rec.compared()
-            if not close(g[i], w_):
+            if not _close_root(g[i], w_, root=True):
                 rec.violation("strand %s[%d] = %r; respondent-level value %r (%r)" % (
                     n, i, g[i], w_, rs),
                     "overlapping-addend-subtrahend" if _overlap(rs, rs) else n)
